@@ -16,6 +16,7 @@ Results: `ok <flattened list>`; complex values as interleaved re,im.
 -/
 import Nitime.Model.CohBase
 import Nitime.Model.C04
+import Nitime.Model.C08Hist
 
 namespace Nitime.C08
 open Nitime.Coh Nitime.Coh.CScalar
@@ -185,8 +186,60 @@ def handleMtCsd (args : List String) : Option String := do
     | _ => none
   | _ => none
 
+/-- `cache <NFFT> <noverlap|dfunc> <Fs> <win> <sbf 0|1> <psm 0|1> <lbIdx> <nBins> <i:j,i:j,…> <chan0> …`:
+    `cache_to_coherency(cache_fft(…), ij)` for the listed pairs on the kept bins (CohBase `cacheCoherency`: cached
+    slices, window mean, norm, coherency of the three cached spectra) -/
+def handleCacheCoh (args : List String) : Option String := do
+  match args with
+  | sN :: sO :: sFs :: sWin :: sSbf :: sPsm :: sL :: sNb :: sIj :: chans =>
+    let NFFT ← sN.toNat?
+    let nov ← (if sO = "dfunc" then some (denseDefaultOverlap NFFT) else sO.toNat?)
+    let Fs ← Proto.parseFloat? sFs
+    let l ← sL.toNat?
+    let nb ← sNb.toNat?
+    let X ← parseChans? chans
+    if NFFT = 0 ∨ nov ≥ NFFT then return "err ValueError"
+    let w ← parseWin? sWin NFFT
+    let ij ← (sIj.splitOn ",").mapM fun p =>
+      match p.splitOn ":" with
+      | [a, b] => do some ((← a.toNat?), (← b.toNat?))
+      | _ => none
+    let nv : Cx := normVal w (Cx.ofF Fs) NFFT (sSbf == "1")
+    let step := NFFT - nov
+    return "ok " ++ showCx (ij.flatMap fun (a, b) =>
+      (List.range nb).map fun t => cacheCoherency (sPsm == "1") w nv NFFT step (X.getD a []) (X.getD b []) l t)
+  | _ => none
+
+/-- `reads <dof> <t_lo> <t_hi> <coherence> <jackknife variance> <order: string of c / i>`: the getter object model of
+    `Model/C08Hist.lean` with `g = sqrt(dof)·arctanh` and `F` = the rest of `confidence_interval` (limits from the
+    jackknife variance — data —, `normal_coherence_to_unit`, `ub − lb`); answer: the contents each read hands out,
+    followed by what every handed-out address holds at the END of the history -/
+def handleReads (args : List String) : Option String := do
+  match args with
+  | [sdof, stlo, sthi, sc0, svar, sorder] =>
+    let dof ← Proto.parseFloat? sdof
+    let tlo ← Proto.parseFloat? stlo
+    let thi ← Proto.parseFloat? sthi
+    let c0 ← Proto.parseFloatList? sc0
+    let var ← Proto.parseFloatList? svar
+    let rs ← sorder.toList.mapM fun ch =>
+      if ch = 'c' then some Hist.Rd.coherence else if ch = 'i' then some Hist.Rd.confidence_interval else none
+    let sq := Float.sqrt dof
+    let g : Float → Float := fun x => Float.atanh x * sq
+    let F : List Float → List Float := fun xs => (List.zip xs var).map fun (x, v) =>
+      let lb := (x + tlo * Float.sqrt v) / sq
+      let ub := (x + thi * Float.sqrt v) / sq
+      Float.tanh ub - Float.tanh lb
+    let out := Hist.runReads true g F c0 Hist.St.init rs
+    let now := out.1.map fun x => Proto.showFloatList x.2.2
+    let atEnd := out.1.map fun x => Proto.showFloatList (Hist.rd out.2.heap x.2.1)
+    return "ok " ++ " ".intercalate (now ++ atEnd)
+  | _ => none
+
 def handle (args : List String) : String :=
   match args with
+  | "cache" :: rest => (handleCacheCoh rest).getD "bad-op"
+  | "reads" :: rest => (handleReads rest).getD "bad-op"
   | "mtcsd" :: rest => (handleMtCsd rest).getD "bad-op"
   | "welch" :: rest => (handleWelch rest).getD "bad-op"
   | "spec" :: rest => (handleSpec rest).getD "bad-op"
